@@ -60,7 +60,7 @@ func main() {
 			o := msdrive.NewOracle(ps)
 			snaps := []msdrive.Oracle{o.Clone()}
 			for bi, b := range blocks {
-				ms.ApplyWrites(b)
+				ms.ApplyWritesRoute(b, msdrive.RouteOf(bi, b))
 				o.Apply(b)
 				commitLine(t, db, ms, bi, o)
 				snaps = append(snaps, o.Clone())
@@ -139,7 +139,7 @@ func main() {
 					// replay the same blocks on the reopened store
 					o2 := snaps[target].Clone()
 					for bi := int(target); bi < nb; bi++ {
-						ms2.ApplyWrites(blocks[bi])
+						ms2.ApplyWritesRoute(blocks[bi], msdrive.RouteOf(bi, blocks[bi]))
 						o2.Apply(blocks[bi])
 						commitLine(t, cp, ms2, bi, o2)
 					}
